@@ -279,3 +279,47 @@ def checkSubst (m m' : Module) : Bool :=
   m.externs = m'.externs && m.vars = m'.vars && funcsSubst m.funcs m'.funcs
 
 end Model.OptCheck
+
+/-! ## typing facts (checked): integer operands of integer binops / phis / returns / direct calls have the
+declared integer type.  `Proofs.Opt.Typing` proves from them that every integer-typed local always holds a
+value in the range of its type (needed for `x + 0 = x`). -/
+namespace Model.OptCheck
+open Spec.IR Model.Opt
+
+/-- declared type of a local: parameter type, or result type of its defining instruction -/
+def declTy (f : Func) (x : String) : Option Ty :=
+  match lookupStr f.params x with
+  | some t => some t
+  | none =>
+    match defPos f x with
+    | some p => (instrAtPos f p).bind fun i => i.dst?.map (·.2)
+    | none => none
+
+def opTy (f : Func) : Operand → Option Ty
+  | .loc x => declTy f x
+  | .glob _ => some .ptr
+
+def instrTyOk (m : Module) (f : Func) : Instr → Bool
+  | .binop _ (.int t) _ a b => opTy f a = some (.int t) && opTy f b = some (.int t)
+  | .phi _ (.int t) ins => ins.all fun p => opTy f p.2 = some (.int t)
+  | .ret v =>
+    (match f.ret with
+     | some (.int t) => opTy f v = some (.int t)
+     | _ => true)
+  | .fcall _ (.int t) callee _ =>
+    (match callee with
+     | .glob g =>
+       (match m.findFunc g with
+        | some fg => fg.ret = some (.int t)
+        | none =>
+          match m.findExtern g with
+          | some e => (match e.kind with
+              | .func _ rty => rty = .int t
+              | _ => true)
+          | none => true)
+     | .loc _ => false)
+  | _ => true
+
+def tyCheck (m : Module) (f : Func) : Bool := f.blocks.all fun b => b.instrs.all (instrTyOk m f)
+
+end Model.OptCheck
